@@ -8,7 +8,7 @@ REPO = "/repo"; OUT = "/var/tmp/verif_seeded"
 CHECKS = {  # seeded id -> checks expected to notice (first = the property it was written against)
     "C01": ["C01"], "C03": ["C03", "C09"], "C05": ["C05"], "C06": ["C06"], "C09": ["C09"], "C10": ["C10"],
     "C12": ["C12"], "C14": ["C14"], "C16": ["C16"], "C18": ["C18"], "C19": ["C19"], "C22": ["C22", "C01"], "C27": ["C27"],
-    "C02": ["C02"], "C04": ["C04"], "C07": ["C07"], "C08": ["C08"], "C13": ["C13"], "C20": ["C20"], "C23": ["C23", "C01"], "C28": ["C28"],
+    "C19c": ["C19", "C18"], "C02": ["C02"], "C04": ["C04"], "C07": ["C07"], "C08": ["C08"], "C13": ["C13"], "C20": ["C20"], "C23": ["C23", "C01"], "C28": ["C28"],
 }
 args = sys.argv[1:]; tier = "quick"
 if args[:1] == ["--tier"]:
